@@ -437,6 +437,10 @@ pub static mut STEP_ST0: u8 = 0;
 pub static mut STEP_SOME: bool = false;
 
 fn step(loud: bool) {
+    step_from(loud, None)
+}
+
+fn step_from(loud: bool, fixed_stage: Option<u8>) {
     let (nc, nq) = any_lists();
     let hash = if loud { None } else { any_move_opt() };
     if let Some(h) = hash {
@@ -445,6 +449,9 @@ fn step(loud: bool) {
     // an arbitrary picker state
     let mut p = if loud { MovePicker::new_loud() } else { MovePicker::new(hash) };
     p.stage = any_stage();
+    if let Some(f) = fixed_stage {
+        kani::assume(stage_no(&p.stage) == f);
+    }
     p.idx = kani::any();
     p.captures_end = kani::any();
     p.first_quiet = kani::any();
@@ -510,23 +517,117 @@ fn step(loud: bool) {
     }
 }
 
-//@ obligation: C10.step.full
-//@ domain: bounded(<= 4 captures + <= 4 quiets per node; unbounded in the number of calls)
-//@ functions: engine/search/move_picker.rs::MovePicker::next, engine/search/move_picker.rs::MovePicker::next_best_move, engine/search/move_picker.rs::MovePicker::new
-//@ timeout: 3000
-//@ mem_gb: 14
-//@ note: inductive step of 'the stream is exactly the generated moves, each once': from ANY picker state satisfying the structural invariant (any stage, any cursor positions, any list order, any scores), with any hash move (in the lists or none), ARBITRARY killers / counter move / previous move: one call of next either hands out a generated move that had not been handed out and marks exactly that move, or returns None with every generated move handed out; the invariant is re-established; unreachable!() and out-of-range indices are unreachable
-//@ assumes: callee contracts of generate_captures / generate_quiets (C01: duplicate-free lists, classes disjoint); ArrayVec modelled as a bounded vector of capacity 8; initial state satisfies the invariant with nothing yielded (C10.step.initial)
-#[kani::proof]
-#[kani::unwind(10)]
-fn vk_c10_step_full() {
-    step(false);
-    unsafe {
-        kani::cover!(STEP_ST0 == 6 && STEP_SOME);
-        kani::cover!(STEP_ST0 == 7 && STEP_SOME);
-        kani::cover!(STEP_ST0 == 9 && !STEP_SOME);
-    }
+macro_rules! step_stage {
+    ($name:ident, $st:expr, $some:expr) => {
+        #[kani::proof]
+        #[kani::unwind(10)]
+        fn $name() {
+            step_from(false, Some($st));
+            unsafe {
+                kani::cover!(STEP_SOME == $some);
+            }
+        }
+    };
 }
+//@ obligation: C10.step.full.BestMove
+//@ domain: bounded(<= 4 captures + <= 4 quiets per node; unbounded in the number of calls)
+//@ harness: vk_c10_step_full_s0
+//@ functions: engine/search/move_picker.rs::MovePicker::next, engine/search/move_picker.rs::MovePicker::next_best_move
+//@ timeout: 2400
+//@ mem_gb: 8
+//@ note: inductive step of 'the stream is exactly the generated moves, each once', for a call that STARTS in stage BestMove: from ANY picker state of that stage satisfying the structural invariant (any cursor positions, list order, scores), any hash move (in the lists or none), ARBITRARY killers / counter move / previous move: next either hands out a generated move that had not been handed out and marks exactly that move, or returns None with every generated move handed out; the invariant is re-established; unreachable!() and out-of-range indices are unreachable.  The eleven stage obligations together are the step for every state.
+//@ assumes: callee contracts of generate_captures / generate_quiets (C01: duplicate-free lists, classes disjoint); ArrayVec modelled as a bounded vector of capacity 8; base case C10.step.initial
+step_stage!(vk_c10_step_full_s0, 0, true);
+//@ obligation: C10.step.full.GenCaptures
+//@ domain: bounded(<= 4 captures + <= 4 quiets per node; unbounded in the number of calls)
+//@ harness: vk_c10_step_full_s1
+//@ functions: engine/search/move_picker.rs::MovePicker::next, engine/search/move_picker.rs::MovePicker::next_best_move
+//@ timeout: 2400
+//@ mem_gb: 8
+//@ note: inductive step of 'the stream is exactly the generated moves, each once', for a call that STARTS in stage GenCaptures: from ANY picker state of that stage satisfying the structural invariant (any cursor positions, list order, scores), any hash move (in the lists or none), ARBITRARY killers / counter move / previous move: next either hands out a generated move that had not been handed out and marks exactly that move, or returns None with every generated move handed out; the invariant is re-established; unreachable!() and out-of-range indices are unreachable.  The eleven stage obligations together are the step for every state.
+//@ assumes: callee contracts of generate_captures / generate_quiets (C01: duplicate-free lists, classes disjoint); ArrayVec modelled as a bounded vector of capacity 8; base case C10.step.initial
+step_stage!(vk_c10_step_full_s1, 1, true);
+//@ obligation: C10.step.full.GoodCaptures
+//@ domain: bounded(<= 4 captures + <= 4 quiets per node; unbounded in the number of calls)
+//@ harness: vk_c10_step_full_s2
+//@ functions: engine/search/move_picker.rs::MovePicker::next, engine/search/move_picker.rs::MovePicker::next_best_move
+//@ timeout: 2400
+//@ mem_gb: 8
+//@ note: inductive step of 'the stream is exactly the generated moves, each once', for a call that STARTS in stage GoodCaptures: from ANY picker state of that stage satisfying the structural invariant (any cursor positions, list order, scores), any hash move (in the lists or none), ARBITRARY killers / counter move / previous move: next either hands out a generated move that had not been handed out and marks exactly that move, or returns None with every generated move handed out; the invariant is re-established; unreachable!() and out-of-range indices are unreachable.  The eleven stage obligations together are the step for every state.
+//@ assumes: callee contracts of generate_captures / generate_quiets (C01: duplicate-free lists, classes disjoint); ArrayVec modelled as a bounded vector of capacity 8; base case C10.step.initial
+step_stage!(vk_c10_step_full_s2, 2, true);
+//@ obligation: C10.step.full.GenQuiets
+//@ domain: bounded(<= 4 captures + <= 4 quiets per node; unbounded in the number of calls)
+//@ harness: vk_c10_step_full_s3
+//@ functions: engine/search/move_picker.rs::MovePicker::next, engine/search/move_picker.rs::MovePicker::next_best_move
+//@ timeout: 2400
+//@ mem_gb: 8
+//@ note: inductive step of 'the stream is exactly the generated moves, each once', for a call that STARTS in stage GenQuiets: from ANY picker state of that stage satisfying the structural invariant (any cursor positions, list order, scores), any hash move (in the lists or none), ARBITRARY killers / counter move / previous move: next either hands out a generated move that had not been handed out and marks exactly that move, or returns None with every generated move handed out; the invariant is re-established; unreachable!() and out-of-range indices are unreachable.  The eleven stage obligations together are the step for every state.
+//@ assumes: callee contracts of generate_captures / generate_quiets (C01: duplicate-free lists, classes disjoint); ArrayVec modelled as a bounded vector of capacity 8; base case C10.step.initial
+step_stage!(vk_c10_step_full_s3, 3, true);
+//@ obligation: C10.step.full.Killer1
+//@ domain: bounded(<= 4 captures + <= 4 quiets per node; unbounded in the number of calls)
+//@ harness: vk_c10_step_full_s4
+//@ functions: engine/search/move_picker.rs::MovePicker::next, engine/search/move_picker.rs::MovePicker::next_best_move
+//@ timeout: 2400
+//@ mem_gb: 8
+//@ note: inductive step of 'the stream is exactly the generated moves, each once', for a call that STARTS in stage Killer1: from ANY picker state of that stage satisfying the structural invariant (any cursor positions, list order, scores), any hash move (in the lists or none), ARBITRARY killers / counter move / previous move: next either hands out a generated move that had not been handed out and marks exactly that move, or returns None with every generated move handed out; the invariant is re-established; unreachable!() and out-of-range indices are unreachable.  The eleven stage obligations together are the step for every state.
+//@ assumes: callee contracts of generate_captures / generate_quiets (C01: duplicate-free lists, classes disjoint); ArrayVec modelled as a bounded vector of capacity 8; base case C10.step.initial
+step_stage!(vk_c10_step_full_s4, 4, true);
+//@ obligation: C10.step.full.Killer2
+//@ domain: bounded(<= 4 captures + <= 4 quiets per node; unbounded in the number of calls)
+//@ harness: vk_c10_step_full_s5
+//@ functions: engine/search/move_picker.rs::MovePicker::next, engine/search/move_picker.rs::MovePicker::next_best_move
+//@ timeout: 2400
+//@ mem_gb: 8
+//@ note: inductive step of 'the stream is exactly the generated moves, each once', for a call that STARTS in stage Killer2: from ANY picker state of that stage satisfying the structural invariant (any cursor positions, list order, scores), any hash move (in the lists or none), ARBITRARY killers / counter move / previous move: next either hands out a generated move that had not been handed out and marks exactly that move, or returns None with every generated move handed out; the invariant is re-established; unreachable!() and out-of-range indices are unreachable.  The eleven stage obligations together are the step for every state.
+//@ assumes: callee contracts of generate_captures / generate_quiets (C01: duplicate-free lists, classes disjoint); ArrayVec modelled as a bounded vector of capacity 8; base case C10.step.initial
+step_stage!(vk_c10_step_full_s5, 5, true);
+//@ obligation: C10.step.full.CounterMove
+//@ domain: bounded(<= 4 captures + <= 4 quiets per node; unbounded in the number of calls)
+//@ harness: vk_c10_step_full_s6
+//@ functions: engine/search/move_picker.rs::MovePicker::next, engine/search/move_picker.rs::MovePicker::next_best_move
+//@ timeout: 2400
+//@ mem_gb: 8
+//@ note: inductive step of 'the stream is exactly the generated moves, each once', for a call that STARTS in stage CounterMove: from ANY picker state of that stage satisfying the structural invariant (any cursor positions, list order, scores), any hash move (in the lists or none), ARBITRARY killers / counter move / previous move: next either hands out a generated move that had not been handed out and marks exactly that move, or returns None with every generated move handed out; the invariant is re-established; unreachable!() and out-of-range indices are unreachable.  The eleven stage obligations together are the step for every state.
+//@ assumes: callee contracts of generate_captures / generate_quiets (C01: duplicate-free lists, classes disjoint); ArrayVec modelled as a bounded vector of capacity 8; base case C10.step.initial
+step_stage!(vk_c10_step_full_s6, 6, true);
+//@ obligation: C10.step.full.BadCaptures
+//@ domain: bounded(<= 4 captures + <= 4 quiets per node; unbounded in the number of calls)
+//@ harness: vk_c10_step_full_s7
+//@ functions: engine/search/move_picker.rs::MovePicker::next, engine/search/move_picker.rs::MovePicker::next_best_move
+//@ timeout: 2400
+//@ mem_gb: 8
+//@ note: inductive step of 'the stream is exactly the generated moves, each once', for a call that STARTS in stage BadCaptures: from ANY picker state of that stage satisfying the structural invariant (any cursor positions, list order, scores), any hash move (in the lists or none), ARBITRARY killers / counter move / previous move: next either hands out a generated move that had not been handed out and marks exactly that move, or returns None with every generated move handed out; the invariant is re-established; unreachable!() and out-of-range indices are unreachable.  The eleven stage obligations together are the step for every state.
+//@ assumes: callee contracts of generate_captures / generate_quiets (C01: duplicate-free lists, classes disjoint); ArrayVec modelled as a bounded vector of capacity 8; base case C10.step.initial
+step_stage!(vk_c10_step_full_s7, 7, true);
+//@ obligation: C10.step.full.ScoreQuiets
+//@ domain: bounded(<= 4 captures + <= 4 quiets per node; unbounded in the number of calls)
+//@ harness: vk_c10_step_full_s8
+//@ functions: engine/search/move_picker.rs::MovePicker::next, engine/search/move_picker.rs::MovePicker::next_best_move
+//@ timeout: 2400
+//@ mem_gb: 8
+//@ note: inductive step of 'the stream is exactly the generated moves, each once', for a call that STARTS in stage ScoreQuiets: from ANY picker state of that stage satisfying the structural invariant (any cursor positions, list order, scores), any hash move (in the lists or none), ARBITRARY killers / counter move / previous move: next either hands out a generated move that had not been handed out and marks exactly that move, or returns None with every generated move handed out; the invariant is re-established; unreachable!() and out-of-range indices are unreachable.  The eleven stage obligations together are the step for every state.
+//@ assumes: callee contracts of generate_captures / generate_quiets (C01: duplicate-free lists, classes disjoint); ArrayVec modelled as a bounded vector of capacity 8; base case C10.step.initial
+step_stage!(vk_c10_step_full_s8, 8, true);
+//@ obligation: C10.step.full.Quiets
+//@ domain: bounded(<= 4 captures + <= 4 quiets per node; unbounded in the number of calls)
+//@ harness: vk_c10_step_full_s9
+//@ functions: engine/search/move_picker.rs::MovePicker::next, engine/search/move_picker.rs::MovePicker::next_best_move
+//@ timeout: 2400
+//@ mem_gb: 8
+//@ note: inductive step of 'the stream is exactly the generated moves, each once', for a call that STARTS in stage Quiets: from ANY picker state of that stage satisfying the structural invariant (any cursor positions, list order, scores), any hash move (in the lists or none), ARBITRARY killers / counter move / previous move: next either hands out a generated move that had not been handed out and marks exactly that move, or returns None with every generated move handed out; the invariant is re-established; unreachable!() and out-of-range indices are unreachable.  The eleven stage obligations together are the step for every state.
+//@ assumes: callee contracts of generate_captures / generate_quiets (C01: duplicate-free lists, classes disjoint); ArrayVec modelled as a bounded vector of capacity 8; base case C10.step.initial
+step_stage!(vk_c10_step_full_s9, 9, true);
+//@ obligation: C10.step.full.Done
+//@ domain: bounded(<= 4 captures + <= 4 quiets per node; unbounded in the number of calls)
+//@ harness: vk_c10_step_full_s10
+//@ functions: engine/search/move_picker.rs::MovePicker::next, engine/search/move_picker.rs::MovePicker::next_best_move
+//@ timeout: 2400
+//@ mem_gb: 8
+//@ note: inductive step of 'the stream is exactly the generated moves, each once', for a call that STARTS in stage Done: from ANY picker state of that stage satisfying the structural invariant (any cursor positions, list order, scores), any hash move (in the lists or none), ARBITRARY killers / counter move / previous move: next either hands out a generated move that had not been handed out and marks exactly that move, or returns None with every generated move handed out; the invariant is re-established; unreachable!() and out-of-range indices are unreachable.  The eleven stage obligations together are the step for every state.
+//@ assumes: callee contracts of generate_captures / generate_quiets (C01: duplicate-free lists, classes disjoint); ArrayVec modelled as a bounded vector of capacity 8; base case C10.step.initial
+step_stage!(vk_c10_step_full_s10, 10, false);
 
 //@ obligation: C10.step.loud
 //@ domain: bounded(<= 4 captures per node; unbounded in the number of calls)
